@@ -89,6 +89,7 @@ class Spec(SeqSpec):
         ops.append(('delete', (2, 3)))
         ops.append(('reopen',))
         ops.append(('reinit_clear',))
+        ops.append(('reinit_clear', 'other-target'))     # ... with another pack size target (25 <-> 60), same handle
         return ops
 
     def enabled(self, hist, op):
